@@ -25,17 +25,30 @@ Inductive fnobs := ObsPanic (i : nat) (c : pcode) | ObsCalls (rs : list callres)
 Definition fncase :=
   (list (str * pty) * list (list (bop pty N)) * list (list pval * option N) * fnobs)%type.
 
-Definition obs_of (tab : list (N * option N)) (r : fnres) (calls : list (list pval * option N)) : fnobs :=
+(* `look`: the alias objects the function's resolved types refer to (fn_look); instance-of is cinst look *)
+Definition obs_of (tab : list (N * option N)) (look : str -> option pty) (r : fnres) (calls : list (list pval * option N)) : fnobs :=
   match r with
   | inl (i, code) => ObsPanic i code
-  | inr ds => ObsCalls (map (fun cl => call pinst (btab_inst tab) ds (fst cl) (snd cl)) calls)
+  | inr ds => ObsCalls (map (fun cl => call (cinst look) (btab_inst tab) ds (fst cl) (snd cl)) calls)
   end.
 
-(* one function built and resolved in a fresh context (function.go:123-180: builder, local types, createDispatch
-   with the type references resolved against the local types) *)
+(* the fuel of the model's instance-of was enough: no test of an argument against a parameter type ran out *)
+Definition inst_fuel_ok (look : str -> option pty) (r : fnres) (calls : list (list pval * option N)) : bool :=
+  match r with
+  | inl _ => true
+  | inr ds =>
+      forallb (fun cl =>
+        forallb (fun d =>
+          forallb (fun t =>
+            forallb (fun v => match pinst_in look inst_fuel [] t v with Some _ => true | None => false end) (fst cl))
+            (s_types (d_sig d))) ds) calls
+  end.
+
+(* one function built and resolved in a fresh context (function.go:123-180: builder, local types - all bound before any
+   is resolved -, createDispatch with the type references resolved against the local types) *)
 Definition model_fn (tab : list (N * option N)) (aliases : list (str * pty)) (dss : list (list (bop pty N)))
            (calls : list (list pval * option N)) : fnobs :=
-  obs_of tab (snd (resolve_fn ctx0 (aliases, dss))) calls.
+  obs_of tab (fn_look ctx0 (aliases, dss)) (snd (resolve_fn ctx0 (aliases, dss))) calls.
 
 (* Projection of the builder's panics: the two complaints about the ORDER of the parameters (required after
    optional / anything after repeated) are one class — which of the two tests fires first when both apply
@@ -51,7 +64,9 @@ Definition fnobs_eqb (a b : fnobs) : bool :=
   end.
 
 Definition fn_check (tab : list (N * option N)) (c : fncase) : bool :=
-  let '(aliases, dss, calls, obs) := c in fnobs_eqb (model_fn tab aliases dss calls) obs.
+  let '(aliases, dss, calls, obs) := c in
+  fnobs_eqb (model_fn tab aliases dss calls) obs &&
+  inst_fuel_ok (fn_look ctx0 (aliases, dss)) (snd (resolve_fn ctx0 (aliases, dss))) calls.
 
 Definition fn_mismatches (tab : list (N * option N)) (cs : list fncase) : list N := failing (fn_check tab) cs.
 
@@ -65,7 +80,10 @@ Definition hist_check (tab : list (N * option N)) (h : histcase) : bool :=
   let rs := snd (run_history ctx0 (map decl_of_case h)) in
   Nat.eqb (length rs) (length h) &&
   forallb (fun rc => let '(r, c) := rc in
-                     let '(_, _, calls, obs) := c in fnobs_eqb (obs_of tab r calls) obs)
+                     let '(aliases, dss, calls, obs) := c in
+                     (* the context is the initial one again after every function (C16_resolve_restores_loader) *)
+                     let look := fn_look ctx0 (aliases, dss) in
+                     fnobs_eqb (obs_of tab look r calls) obs && inst_fuel_ok look r calls)
           (combine rs h).
 
 Definition hist_mismatches (tab : list (N * option N)) (cs : list histcase) : list N := failing (hist_check tab) cs.
@@ -116,9 +134,14 @@ Definition new_check (c : newcase) : bool :=
 
 Definition new_mismatches (cs : list newcase) : list N := failing new_check cs.
 
-(* ---- instance-of on the fragment (with the local aliases resolved) ----------------------------------- *)
+(* ---- instance-of on the fragment (with the local aliases bound as for a function that declares them) -------- *)
 Definition inst_check (aliases : list (str * pty)) (c : pty * pval * bool) : bool :=
-  let '(t, v, b) := c in Bool.eqb (pinst (subst (resolve_aliases aliases) t) v) b.
+  let '(t, v, b) := c in
+  let look := fn_look ctx0 (aliases, []) in
+  match pinst_in look inst_fuel [] (subst_with (local_ref [] (map fst aliases)) t) v with
+  | Some r => Bool.eqb r b
+  | None => false
+  end.
 
 Definition inst_mismatches (aliases : list (str * pty)) (cs : list (pty * pval * bool)) : list N :=
   failing (inst_check aliases) cs.
